@@ -174,6 +174,17 @@ def _geometry(gran_per_unit: int, max_units: int, maxlen: int, unit: int = 1024)
     return {"base": base, "len": length, "snap": snap, "cuts": st.lists(st.integers(0, 1 << 16), max_size=3), "seed": st.binary(min_size=8, max_size=8)}
 
 
+def _key_bytes(n: int):
+    """Key material as bytes: arbitrary, and with zero bytes at the front (a key is a byte string; written as a number it must keep them)."""
+    return st.one_of(st.binary(min_size=n, max_size=n), st.binary(min_size=n, max_size=n),
+                     st.integers(1, n - 1).flatmap(lambda z: st.binary(min_size=n - z, max_size=n - z).map(lambda t: bytes(z) + t)))
+
+
+def _key_text(k: bytes, pick: int) -> str:
+    """A key in a configuration: 0x + digits, in lower or upper case."""
+    return "0x" + (k.hex().upper() if pick % 2 else k.hex())
+
+
 # ========================================================================================== OTFAD
 def _otfad_case(maxlen: int):
     blob = {"key": st.binary(min_size=16, max_size=16), "ctr": st.binary(min_size=8, max_size=8),
@@ -293,13 +304,14 @@ _OTFAD_FAMILIES = ["mimxrt1010", "mimxrt1166", "mimxrt1176", "mimxrt1189", "mimx
 
 
 def _otfad_cfg_case(maxlen: int):
-    blob = {"key": st.binary(min_size=16, max_size=16), "ctr": st.binary(min_size=8, max_size=8),
+    blob = {"key": _key_bytes(16), "ctr": _key_bytes(8),
             "flags": st.sampled_from([3, 3, 3, 7, 7, 7, 1, 2, 5, 6]), "end": st.sampled_from(["excl", "incl"])}
     data = st.fixed_dictionaries({"gap16": st.integers(0, 130), "len": st.one_of(st.integers(1, maxlen), st.integers(1, max(1, maxlen // 512)).map(lambda k: k * 512)),
                                   "seed": st.binary(min_size=4, max_size=4)})
     return st.fixed_dictionaries({
         "family": st.sampled_from(_OTFAD_FAMILIES), "origin": st.sampled_from([0x0, 0x08000000, 0x30000000, 0x04000000]),
-        "blobs": _regions(blob, 3, 5), "data": st.lists(data, min_size=1, max_size=3), "kek": st.binary(min_size=16, max_size=16),
+        "blobs": _regions(blob, 3, 5), "data": st.lists(data, min_size=1, max_size=3), "kek": _key_bytes(16),
+        "key_text": st.integers(0, 5), "kek_as": st.sampled_from(["text", "text", "file", "file_line_end", "bin_file"]),
         "scr": st.one_of(st.none(), st.fixed_dictionaries({"mask": st.integers(1, 0xFFFFFFFF), "align": st.integers(1, 255)})),
         "first16": st.one_of(st.integers(0, 300), st.integers(0, 4).map(lambda u: u * 64)),
         "num_form": st.sampled_from(["int", "hex"]), "exports": st.sampled_from([1, 1, 2, 3]),
@@ -321,7 +333,22 @@ def run_otfad_cfg(case, o: Oracle, work: str) -> None:
     num = (lambda v: v) if case["num_form"] == "int" else hex
     wdir = os.path.join(work, "otfad-%d" % os.getpid())
     os.makedirs(wdir, exist_ok=True)
-    cfg = {"family": case["family"], "output_folder": os.path.join(wdir, "out"), "kek": "0x" + bytes(case["kek"]).hex(), "otfad_table_address": num(table_addr),
+    kt = case.get("key_text", 0)
+    kek_as = case.get("kek_as", "text")
+    if kek_as == "text":
+        kek_cfg = _key_text(bytes(case["kek"]), kt)
+    elif kek_as == "bin_file":
+        kek_cfg = os.path.join(wdir, "kek.bin")
+        with open(kek_cfg, "wb") as f:
+            f.write(bytes(case["kek"]))
+    else:  # a text file of hexadecimal digits, as written by hand or by `echo` (with a line end)
+        kek_cfg = os.path.join(wdir, "kek.txt")
+        with open(kek_cfg, "w", newline="") as f:
+            f.write(bytes(case["kek"]).hex() + ("\n" if kek_as == "file_line_end" else ""))
+    o.label("kek_as:" + kek_as)
+    if not bytes(case["kek"])[0] or any(not bytes(b["key"])[0] or not bytes(b["ctr"])[0] for b in case["blobs"]):
+        o.label("key_leading_zero_byte")
+    cfg = {"family": case["family"], "output_folder": os.path.join(wdir, "out"), "kek": kek_cfg, "otfad_table_address": num(table_addr),
            "data_blobs": [], "key_blobs": []}
     for i, (addr, content) in enumerate(datas):
         p = os.path.join(wdir, "data%d.bin" % i)
@@ -331,7 +358,7 @@ def run_otfad_cfg(case, o: Oracle, work: str) -> None:
     blobs_cfg = []
     for b, (s, e) in zip(case["blobs"], spans):
         end = e if b["end"] == "excl" else e - 1
-        cfg["key_blobs"].append({"aes_key": "0x" + bytes(b["key"]).hex(), "aes_ctr": "0x" + bytes(b["ctr"]).hex(), "start_address": num(s), "end_address": num(end),
+        cfg["key_blobs"].append({"aes_key": _key_text(bytes(b["key"]), kt), "aes_ctr": _key_text(bytes(b["ctr"]), kt >> 1), "start_address": num(s), "end_address": num(end),
                                  "aes_decryption_enable": bool(b["flags"] & 2), "valid": bool(b["flags"] & 1), "read_only": bool(b["flags"] & 4)})
         blobs_cfg.append((bytes(b["key"]), bytes(b["ctr"]), s, end, b["flags"]))
         o.label("flags:%d" % b["flags"], "end:" + b["end"])
@@ -426,7 +453,7 @@ _IEE_UNMODELLED = ["ctr_noaddr128", "ctr_noaddr256", "ctr_ks128", "ctr_ks256"]
 
 
 def _iee_region(modes):
-    return {"mode": st.sampled_from(modes), "key1": st.binary(min_size=32, max_size=32), "key2": st.binary(min_size=32, max_size=32),
+    return {"mode": st.sampled_from(modes), "key1": _key_bytes(32), "key2": _key_bytes(32),
             "wrap": st.sampled_from([False, False, False, True]), "lock": st.booleans(), "page_offset": st.sampled_from([0, 0, 0, 1, 0x30001, 0xFFFFFFFF])}
 
 
@@ -657,7 +684,7 @@ def run_iee_cfg(case, o: Oracle, work: str) -> None:
 # ============================================================================================ BEE
 def _bee_case(maxlen: int):
     fac = {"level": st.integers(0, 3)}
-    eng = st.fixed_dictionaries({"key": st.binary(min_size=16, max_size=16), "nonce": st.binary(min_size=12, max_size=12), "kib_key": st.binary(min_size=16, max_size=16),
+    eng = st.fixed_dictionaries({"key": _key_bytes(16), "nonce": st.binary(min_size=12, max_size=12), "kib_key": st.binary(min_size=16, max_size=16),
                                  "kib_iv": st.binary(min_size=16, max_size=16), "lock": st.sampled_from([0, 0, 1, 0xFFFFFFFF])})
     return st.fixed_dictionaries({
         "origin": st.sampled_from([0x0, 0x60000000, 0x70000000, 0x7FFFFC00, 0xFFF00000]),
